@@ -383,6 +383,9 @@ def _run(ctx, arg, rec):
     if prop in EXTRA_PROFILES and shard % 4 == 3:
         # a quarter of the shards walks through the other network families (copies that cannot be bypassed, read/write offsets, table mixes, CPU/NPU mixes, reshapes)
         profile = EXTRA_PROFILES[prop][(shard // 4) % len(EXTRA_PROFILES[prop])]
+    if shard >= 100:
+        # recurrent networks (UNIDIRECTIONAL_SEQUENCE_LSTM unrolled over time and batch: 16-bit element-wise arithmetic, hardware tanh/sigmoid, state tensors)
+        profile = "rnn"
     strat = e2e.case_strategy(profile, small_arena=(prop in ("C02", "C03") and shard % 2 == 0) or prop == "C10")
     run_hypothesis(rec, strat, lambda case, r: ORACLES[prop](case, r), n, sub_seed(ctx.seed, prop, "e2e", shard))
 
@@ -391,7 +394,8 @@ def parts_for(ctx, prop, shards=8):
     if prop not in ORACLES:
         return []
     n = (QUICK_N if ctx.quick else THOROUGH_N)[prop]
-    return [Part("e2e%02d" % i, _run, (prop, i, n)) for i in range(shards)]
+    rnn = [Part("e2e-rnn%02d" % i, _run, (prop, 100 + i, max(n // 2, 8))) for i in range(1 if ctx.quick else 2)] if prop in ("C02", "C04", "C06", "C15", "C17") else []
+    return [Part("e2e%02d" % i, _run, (prop, i, n)) for i in range(shards)] + rnn
 
 
 def replay(ctx, prop, case):
